@@ -224,7 +224,7 @@ def build(active_known=frozenset()):
     pack.trust("a text stream's read(1) returns the next character, and the empty string for ever once the text is exhausted")
     pack.trust("collections.deque(iterable, maxlen) keeps the last maxlen appended items and indexes them like a list (model in pyvc/lib.py)")
     pack.assume("under contract: StreamReader, _with_loc (span tagging), _read_reader_macro (dispatch branch), the prefix readers (quote, deref, unquote, syntax-quote, "
-                "metadata, #_), _read_comment, _consume_whitespace, _read_reader_conditional_macro; NOT under contract: the collection / number / string / symbol / "
+                "metadata, #_), _read_comment, _consume_whitespace, _read_reader_conditional_macro, _read_coll; NOT under contract: the map / number / string / symbol / "
                 "keyword / character / regex / reader-conditional readers, read() itself, totality and 'SyntaxError only' for the reader as a whole")
     pack.assume("_read_next_consuming_comment, the readers behind the # dispatch table and the function decorated by _with_loc are used by contract (induction over the "
                 "nesting depth): they move the cursor forward, keep the stream reader well-formed, return a form (the eof value exactly when nothing but whitespace and "
@@ -341,6 +341,7 @@ def build(active_known=frozenset()):
 
 
 # ----------------------------------------------------------------------------- prefix readers: "a form is still owed"
+END = z3.Int("end_of_text")  # index of the first "" that read(1) returns
 NOMORE = z3.Function("no_more_forms_from", z3.IntSort(), z3.BoolSort())  # only whitespace / comments up to the end of the text
 EOFV = z3.Const("ctx.eof.value", V.Val)
 
@@ -773,7 +774,14 @@ def add_prefix_readers(pack):
     def coll_setup(eng, st):
         psetup(eng, st)
         eng.class_id(CollFn)
+        eng.class_id(rd.ReaderConditional)
+        eng.class_id(rd.Comment)
+        eng.field_types[("ReaderContext", "_process_reader_cond")] = lambda v: V.is_bool(v)
+        eng.field_types[("ReaderConditional", "_is_splicing")] = lambda v: V.is_bool(v)
         eng.opaque_havoc = "none"
+
+        # the text is finite: read(1) returns "" from some index END on, and only from there on (trusted, as in setup)
+        st.assume(END >= 0, forall_k((CH(k) == V.mk_str("")) == (k >= END), CH(k)))
 
         def read_next(e, s, args, k):
             # by contract (induction over nesting): reads one form starting at the cursor - at least one character -
@@ -782,6 +790,11 @@ def add_prefix_readers(pack):
             ctx = e.lift(args[0], s)
             r = fld(s, ctx, "_reader")
             p = pos(s, r)
+            s_end = s.copy()
+            s_end.assume(CH(p) == V.mk_str(""))
+            if e.feasible(s_end):  # at the end of the text _read_next consumes nothing and hands back the eof value
+                yield s_end, SV(fld(s_end, ctx, "_eof"))
+            s.assume(CH(p) != V.mk_str(""))
             s.ghost["n_read"] = z3.Int(V.fresh_name("n_read"))
             e.havoc_heap(s, ["_idx"])
             for nm in ("dqv", "dqn"):
@@ -791,6 +804,10 @@ def add_prefix_readers(pack):
             s2, s3 = s.copy(), s.copy()
             res = V.fresh_val("element")
             s.assume(e.external_ref_fact(s, res))
+            # (_read_reader_conditional: when conditionals are to be processed, only a *splicing* one is handed back as such)
+            rcid = e.class_id(rd.ReaderConditional)
+            s.assume(z3.Implies(z3.And(V.is_ref(res), V.cls_of(V.Val.a(res)) == rcid, fld(s, ctx, "_process_reader_cond") == V.mk_bool(True)),
+                                fld(s, res, "_is_splicing") == V.mk_bool(True)))
             s.ghost["elements"] = list(s.ghost.get("elements", [])) + [res]
             yield s, SV(res)
             s2.ghost["inner_exc"] = "eof"
@@ -799,8 +816,6 @@ def add_prefix_readers(pack):
             yield s3, Raise(Exc(rd.SyntaxError, ("malformed element",), note="malformed element"))
 
         eng.models[id(rd._read_next)] = Model("_read_next (by contract, induction over nesting)", read_next)
-        eng.models[id(rd._should_splice_reader_conditional)] = Model(
-            "_should_splice_reader_conditional (either answer)", lambda e, s, a, k: iter([(s, SV(V.mk_bool(z3.Const(V.fresh_name("splice"), z3.BoolSort()))))]))
 
         def select_branch(e, s, a, k):
             s2 = s.copy()
@@ -845,7 +860,11 @@ def add_prefix_readers(pack):
             ("the eof value is untouched", fld(st, ctx["ctx"], "_eof") == fld(pre, ctx["ctx"], "_eof")),
         ]
 
-    c.loop(0, invariant=coll_inv, frame=["_idx"], lists=True, ghost=("n_read",), aux=("dqv", "dqn"))
+    def coll_variant(ctx):
+        r = fld(ctx.entry.st, ctx["ctx"], "_reader")
+        return END - pos(ctx.st, r)
+
+    c.loop(0, invariant=coll_inv, frame=["_idx"], lists=True, ghost=("n_read",), aux=("dqv", "dqn"), decreases=coll_variant)
 
     def coll_post(a):
         pre, post = a.pre.st, a.post.st
@@ -885,7 +904,21 @@ def add_prefix_readers(pack):
 COLL_REPLAY = r'''
 from basilisp.lang import reader
 bad = []
+import signal
+class Stuck(BaseException):
+    pass
+def _alarm(*_):
+    raise Stuck()
+signal.signal(signal.SIGALRM, _alarm)
 def outcome(text):
+    signal.setitimer(signal.ITIMER_REAL, 3.0)
+    try:
+        return _outcome(text)
+    except Stuck:
+        return "no answer within 3 s (the reader is not total)"
+    finally:
+        signal.setitimer(signal.ITIMER_REAL, 0)
+def _outcome(text):
     try:
         return [f.lrepr() if hasattr(f, "lrepr") else repr(f) for f in reader.read_str(text)]
     except reader.UnexpectedEOFError:
